@@ -9,7 +9,7 @@ open Cctp Gen
 /-- **No result depends on wall-clock time, randomness, map order, goroutines or package-level state**:
     the static scan of x/cctp/{types,keeper}/*.go and x/cctp/genesis.go (non-test, non-generated),
     regenerated on every run, finds no map range, no import of time / math/rand / crypto/rand / os / runtime /
-    sync / unsafe, no go / select statement, no channel, no floating point, and no function other than `init`
+    sync / unsafe, no go / select statement, no channel, no floating-point arithmetic or conversion back from floating point, no write through the receiver of a keeper method, and no function other than `init`
     that assigns to, updates, copies into or takes the address of a package-level variable.
     (Aliasing — `x := pkgVar; copy(x, …)` — is beyond this syntactic scan; the harness's
     replay-after-unrelated-history comparison is what covers it.) -/
